@@ -26,7 +26,10 @@ func VerifC19_TwoCreations() {
 	switch verifChoice("firstShape", 4) {
 	case 3: // fields with leading / trailing white space and mixed case: stored and returned byte for byte
 		contentA = []types.Content{{Digest: "Digest-A\n", DigestAlgo: " SHA256", URI: "uri\t", Meta: " meta "}, {Digest: " digest-a", DigestAlgo: "sha256", URI: "", Meta: ""},
-			{Digest: "0D8736D5AbCdEf", DigestAlgo: "SHA256", URI: "HTTP://Example/A", Meta: "0xDEADBEEF"}} // well-formed hex in upper and mixed case
+			{Digest: "0D8736D5AbCdEf", DigestAlgo: "SHA256", URI: "HTTP://Example/A", Meta: "0xDEADBEEF"}, // well-formed hex in upper and mixed case
+			// fields that happen to be well-formed documents of some notation with insignificant white space
+			// (JSON, a URL with an encodable character, base64 padding): stored byte for byte
+			{Digest: "ZGlnZXN0LWE= ", DigestAlgo: "sha256", URI: "https://example.org/a b?x=1&y=%7E", Meta: "{\"name\": \"annual report\",\n \"tags\": [\"2024\", \"audited\"] }"}}
 	case 1: // the same digest published at a second location
 		contentA = append(contentA, types.Content{Digest: "digest-a", DigestAlgo: "sha256", URI: "mirror", Meta: "meta"})
 	case 2: // a byte-identical entry repeated, and a different one
